@@ -202,6 +202,29 @@ def check_create(ctx, p, i, e, key, it, crate, CFG):
         # nothing requested: the default is the maximum itself, there is nothing to compare
         good = is_max(exp)
         why = "no expiry requested but the stored expiry %s is not max_voting_period.after(env.block)" % show(exp)[:120]
+    elif not cmpc and lsel == ["Some"]:
+        # the comparison spelled with the operators of the partial order: `wanted > max` / `wanted <= max`
+        req = ("vfield", latest, "Some", "0")
+        gt = le = None
+        mxs = []
+        for c in p.conds:
+            t = c[0]
+            if t[0] == "cmp" and t[1] == "lt" and t[3] == req and isinstance(c[1], bool) and is_max(t[2]):
+                gt, mx_ = c[1], t[2]
+                mxs.append(mx_)
+            elif t[0] == "cmp" and t[1] == "le" and t[2] == req and isinstance(c[1], bool) and is_max(t[3]):
+                le, mx_ = c[1], t[3]
+                mxs.append(mx_)
+        if not mxs:
+            why = "no comparison of the requested expiry with the maximum"
+        elif gt is True:
+            good = exp == mxs[0]
+            why = "requested expiry beyond the maximum is stored as %s, not clamped to the maximum" % show(exp)[:120]
+        elif le is True:
+            good = exp == req
+            why = "stored expiry %s is not the requested one" % show(exp)[:120]
+        else:
+            why = "an expiry that is neither beyond nor within the maximum (incomparable) has an Ok-path (wanted > max: %s, wanted <= max: %s)" % (gt, le)
     elif cmpc:
         t = cmpc[0][0]
         req, mx = t[2]
